@@ -72,3 +72,63 @@ pub fn self_exe() -> std::path::PathBuf {
         None => p,
     }
 }
+
+/// What the calling thread is about to hand to the code under test (scenario, crash position,
+/// history). Each thread owns a 4 KiB slot, a shared mapping of a file in the scratch directory:
+/// writing it is a memory copy, and the text survives the death of the process, so the parent
+/// process can name the case if the code under test takes the whole process down (an allocation
+/// failure aborts, it does not unwind).
+pub fn set_context(s: &str) {
+    use std::os::unix::io::AsRawFd;
+    thread_local! {
+        static SLOT: std::cell::Cell<*mut u8> = std::cell::Cell::new(std::ptr::null_mut());
+    }
+    static SEQ: std::sync::atomic::AtomicUsize = std::sync::atomic::AtomicUsize::new(0);
+    let p = SLOT.with(|c| {
+        let mut p = c.get();
+        if p.is_null() {
+            let root = crate::world::scratch_root();
+            let _ = std::fs::create_dir_all(&root);
+            let n = SEQ.fetch_add(1, std::sync::atomic::Ordering::SeqCst);
+            if let Ok(f) = std::fs::OpenOptions::new().read(true).write(true).create(true).open(root.join(format!("ctx-{}", n))) {
+                if f.set_len(4096).is_ok() {
+                    let m = unsafe { libc::mmap(std::ptr::null_mut(), 4096, libc::PROT_READ | libc::PROT_WRITE, libc::MAP_SHARED, f.as_raw_fd(), 0) };
+                    if m != libc::MAP_FAILED {
+                        p = m as *mut u8;
+                        c.set(p);
+                    }
+                }
+            }
+        }
+        p
+    });
+    if p.is_null() {
+        return;
+    }
+    let b = s.as_bytes();
+    let n = b.len().min(4000);
+    unsafe {
+        std::ptr::copy_nonoverlapping(b.as_ptr(), p.add(8), n);
+        std::ptr::write_volatile(p as *mut u64, n as u64);
+    }
+}
+
+/// the context slots of a (dead) check process
+pub fn read_contexts(scratch: &std::path::Path) -> Vec<String> {
+    let mut out = vec![];
+    if let Ok(rd) = std::fs::read_dir(scratch) {
+        let mut names: Vec<_> = rd.flatten().map(|e| e.path()).filter(|p| p.file_name().map(|n| n.to_string_lossy().starts_with("ctx-")).unwrap_or(false)).collect();
+        names.sort();
+        for p in names {
+            if let Ok(b) = std::fs::read(&p) {
+                if b.len() >= 8 {
+                    let n = u64::from_le_bytes(b[..8].try_into().unwrap()) as usize;
+                    if n > 0 && 8 + n <= b.len() {
+                        out.push(String::from_utf8_lossy(&b[8..8 + n]).to_string());
+                    }
+                }
+            }
+        }
+    }
+    out
+}
